@@ -90,6 +90,25 @@ func configs() []*config {
 			depth:    map[string]int{"quick": 4, "thorough": 7}, shards: 2,
 		},
 		{
+			// Nested invocations whose queued operations have different
+			// priorities: the score of the parent must use the priority of
+			// the operation it would hand out next, also after executing
+			// counts below it changed. Started from: I1X handed to W:1,
+			// I1X.p50 and two I1Y queued, W:1 completes and takes an I1Y.
+			name: "c04-nested-prio", props: []string{"C04"},
+			predeclared: onePQ(),
+			workers:     []workerDecl{w(1, "", "P1", 0)},
+			execs: []execDecl{
+				{name: "I1X", platform: "P1", corr: "I1", tool: "X", prio: 0, dur: 1},
+				{name: "I1X.p50", platform: "P1", corr: "I1", tool: "X", prio: 50, dur: 1},
+				{name: "I1Y", platform: "P1", corr: "I1", tool: "Y", prio: 0, dur: 1},
+				{name: "I2X", platform: "P1", corr: "I2", tool: "X", prio: 0, dur: 1},
+			},
+			prefix:   []string{"W:1", "I1X", "I1X.p50", "I1Y", "I1Y", "W:1"},
+			maxTicks: 2,
+			depth:    map[string]int{"quick": 4, "thorough": 7}, shards: 2,
+		},
+		{
 			// Reversed limits: short level-0 window, long level-1 window.
 			name: "c04-sticky-rev", props: []string{"C04"},
 			predeclared: onePQ(1, 3),
